@@ -775,6 +775,12 @@ func (e *Engine) applyContract(st *State, fr *Frame, x *ssa.Call, callee *ssa.Fu
 
 func (e *Engine) applyContractSig(st *State, fr *Frame, x *ssa.Call, name string, spec *FuncSpec, sig *types.Signature, names []string, args []Val) []Val {
 	env := map[string]Val{}
+	if strings.HasPrefix(name, "param:") {
+		// the contract of a function-valued parameter may talk about the enclosing function's parameters
+		for k, v := range e.entryEnv(st.frames[0]) {
+			env[k] = v
+		}
+	}
 	for i, n := range names {
 		if i < len(args) {
 			env[n] = args[i]
